@@ -1,7 +1,7 @@
 ------------------------------ MODULE RzxTrace ------------------------------
 (***************************************************************************)
 (* C20 sequential trace validation: the player's bookkeeping, instruction  *)
-(* by instruction.  Traces[tid] = [blocks, ev, obs, full]:                 *)
+(* by instruction.  Traces[tid] = [blocks, flags, ev, obs, full]:          *)
 (*   ev[l]  = [pc, m1, isin] - what the recorder executed (its own log)    *)
 (*   obs[l] = [frame_count, fetch_counter, readings left, pc] - line l of  *)
 (*            the real `rzxplay --trace` output                            *)
@@ -27,6 +27,10 @@ Adv(bl, bb, q) ==
        ELSE IF bb = Len(bl) THEN [b |-> bb, p |-> n, end |-> TRUE, left |-> FALSE]
        ELSE Adv(bl, bb + 1, PStart(n.cnt))
 
+\* a claim is made only where the playback flags match the recording convention (as in RzxCases)
+Matches(t) == \A k \in 1..Len(t.blocks) : /\ ConvMatchesBlock(t.flags, t.blocks[k].fs, t.blocks[k].ends)
+                                          /\ SnapshotUseMatches(t.flags, t.blocks[k].snapmode)
+
 Line(fs, q, pc) == <<q.cnt, q.fc, Len(InsOf(fs, q.fi)) - q.ii, pc>>
 
 TraceInit ==
@@ -43,7 +47,8 @@ TraceStep ==
          fs == t.blocks[a.b].fs
          q == PPlay(a.p, e[2], e[3])
          last == l = Len(t.obs)
-         c == IF l > Len(t.ev) THEN "more-instructions-than-recorded"
+         c == IF l = 1 /\ ~Matches(t) THEN "noclaim"
+              ELSE IF l > Len(t.ev) THEN "more-instructions-than-recorded"
               ELSE IF a.left THEN "port-readings-left"
               ELSE IF a.end THEN "harness-events-beyond-recording"
               ELSE IF e[3] = 1 /\ Exhausted(fs, a.p) THEN "port-readings-exhausted"
